@@ -241,6 +241,34 @@ def reset_globals():
     np.random.seed(12345)
 
 
+def ambient_state():
+    """(global atol, numpy error state, working directory): none of them is documented to be changed by any library call
+    other than Settings.set_atol itself."""
+    import numpy as np
+
+    try:
+        from quara.settings import Settings
+
+        atol = Settings.get_atol()
+    except Exception:
+        atol = None
+    return {"atol": atol, "np_err": dict(np.geterr()), "cwd": os.getcwd()}
+
+
+def restore_ambient(a):
+    import numpy as np
+
+    try:
+        from quara.settings import Settings
+
+        if a["atol"] is not None:
+            Settings.set_atol(float(a["atol"]))
+    except Exception:
+        pass
+    np.seterr(**a["np_err"])
+    os.chdir(a["cwd"])
+
+
 def quara_frame(tb):
     """innermost frame inside the repo under test, or None."""
     found = None
@@ -288,7 +316,15 @@ def _run_shard(args):
             sys.stdout = cap
             t_case = time.time()
             try:
+                amb0 = ambient_state()
                 facet["check"](case, ctx)
+                # process-global state the library never documents changing (every check module restores what it sets):
+                # a library call that changed it - e.g. on an error path - would silently alter every later verdict
+                amb1 = ambient_state()
+                if amb1 != amb0:
+                    restore_ambient(amb0)
+                    ctx.check(False, "ambient:process_global_state_restored",
+                              f"before the case {amb0}, after it {amb1}")
             except CheckFailure as e:
                 state["last_failure"] = {
                     "case": _jsonable(case),
